@@ -18,6 +18,7 @@ import ast
 from ..cfg import cfg_of
 from ..core import (
     AnalysisError,
+    ancestors,
     call_name,
     dotted,
     finding_at,
@@ -75,7 +76,7 @@ def rule_save(program, ctx):
         "C14.save",
         "each concrete add_event: every admission effect is reachable only via a branch edge on which "
         "`await …can_do(auth_token, Action.save.value, E)` is truthy (failing edge leaves by raise)",
-        floor=8,
+        floor=4,
     )
     for fn, classes in concrete_add_events(program):
         cfg = cfg_of(fn)
@@ -107,7 +108,7 @@ def rule_query(program, ctx):
         "BaseStorage.subscribe: `sub.start()` and `subs[sub_id] = sub` only via an edge where "
         "`can_do(auth_token, Action.query.value, …)` is truthy or self.authenticator is unset; "
         "no other caller of a subscription's start()",
-        floor=3,
+        floor=1,
     )
     fn = program.func("nostr_relay.storage.base:BaseStorage.subscribe")
     cfg = cfg_of(fn)
@@ -208,7 +209,7 @@ def rule_output(program, ctx):
         "C14.output",
         "every queue.put((sub_id, <event>)) in the storage package and the HTTP /e/<id> body: reachable only via "
         "`check_output(<that event>, ctx)` truthy or check_output falsy/None (not configured)",
-        floor=5,
+        floor=3,
     )
     for fn, call, evexpr in delivery_sites(program):
         cfg = cfg_of(fn)
@@ -329,7 +330,60 @@ def rule_can_do(program, ctx):
         ctx.bad(finding_func(P, rid, po, f"parse_options seeds only {sorted(seeded)}: an unconfigured action is open to every token", text="def parse_options(...)"))
 
 
+def rule_roles(program, ctx):
+    rid = ctx.rule(
+        "C14.roles",
+        "role read-back (structural part): DBStorage.set_auth_roles must leave the given roles stored whether or not the pubkey already has a row - accepted "
+        "idioms: INSERT in a try whose IntegrityError handler UPDATEs; an upsert (on_conflict_do_update); DELETE then INSERT; INSERT-or-ignore followed by an "
+        "UPDATE that is unconditional or guarded by rowcount == 0; get_auth_roles reads the same table/column by the same key",
+        floor=2,
+    )
+    fn = program.func("nostr_relay.storage.db:DBStorage.set_auth_roles")
+    txt = ast.unparse(fn)
+    ins = [c for c in ast.walk(fn) if isinstance(c, ast.Call) and ("insert(self.AuthTable)" in ast.unparse(c.func) or "auth_insert" in ast.unparse(c.func)) and isinstance(c.func, ast.Attribute) and c.func.attr == "values"]
+    upd = [c for c in ast.walk(fn) if isinstance(c, ast.Call) and "update(self.AuthTable)" in ast.unparse(c) and isinstance(c.func, ast.Attribute) and c.func.attr == "values"]
+    okv = False
+    why = ""
+    if "on_conflict_do_update" in txt:
+        okv, why = True, "upsert"
+    elif ins and upd:
+        u = upd[0]
+        h = next((a for a in ancestors(u) if isinstance(a, ast.ExceptHandler)), None)
+        g = next((a for a in ancestors(u) if isinstance(a, ast.If)), None)
+        if h is not None and h.type is not None and "IntegrityError" in ast.unparse(h.type) and any(any(i is x for x in ast.walk(s_)) for t_ in ast.walk(fn) if isinstance(t_, ast.Try) and h in t_.handlers for s_ in t_.body for i in ins):
+            ignore = any("OR IGNORE" in ast.unparse(x) or "on_conflict_do_nothing" in ast.unparse(x) for x in ast.walk(fn))
+            okv, why = (not ignore), "INSERT, on IntegrityError UPDATE" if not ignore else "the INSERT ignores conflicts, so the IntegrityError handler never runs"
+        elif g is not None:
+            t = ast.unparse(g.test).replace(" ", "")
+            okv = "rowcount==0" in t or "notresult.rowcount" in t or "rowcount<1" in t
+            why = f"UPDATE guarded by `{ast.unparse(g.test)}`"
+        else:
+            okv, why = True, "unconditional UPDATE after the INSERT"
+    elif "delete(self.AuthTable)" in txt and ins:
+        okv, why = True, "DELETE then INSERT"
+    if not ins and "on_conflict_do_update" not in txt:
+        ctx.bad(finding_func(P, rid, fn, "set_auth_roles no longer inserts into the auth table", text="def set_auth_roles(...) :: insert"))
+    elif okv:
+        ctx.ok(rid, fn, f"set_auth_roles: {why}")
+    else:
+        ctx.bad(finding_func(P, rid, fn, f"set_auth_roles does not reliably replace the roles of a pubkey that already has a row ({why or 'no UPDATE path'}): a demotion or revocation is "
+                             "silently dropped and the old roles keep authorising", text="def set_auth_roles(...) :: replace"))
+    for u in upd:
+        wh = ast.unparse(u)
+        if "self.AuthTable.c.pubkey == pubkey" in wh and "roles=roles" in wh:
+            ctx.ok(rid, u, "UPDATE auth SET roles=<given> WHERE pubkey = <given>")
+        else:
+            ctx.bad(finding_at(P, rid, u, "the UPDATE does not set the given roles for the given pubkey"))
+    g = program.func("nostr_relay.storage.db:DBStorage.get_auth_roles")
+    gt = ast.unparse(g)
+    if "self.AuthTable.c.roles" in gt and "self.AuthTable.c.pubkey == pubkey" in gt and "self.authenticator.default_roles" in gt:
+        ctx.ok(rid, g, "get_auth_roles: SELECT roles WHERE pubkey = <given>, default roles when absent")
+    else:
+        ctx.bad(finding_func(P, rid, g, "get_auth_roles no longer reads auth.roles by pubkey with the default-roles fallback", text="def get_auth_roles(...)"))
+
+
 def run(program, ctx):
+    rule_roles(program, ctx)
     rule_save(program, ctx)
     rule_query(program, ctx)
     rule_output(program, ctx)
@@ -347,6 +401,8 @@ BASE = "nostr_relay/storage/base.py"
 AUTH = "nostr_relay/auth.py"
 
 MUTANTS = [
+    M("c14-roles-ignore-conflict", DB, "                await conn.execute(\n                    sa.insert(self.AuthTable).values(", "                await conn.execute(\n                    sa.insert(self.AuthTable).prefix_with(\"OR IGNORE\").values(", "C14.roles"),
+    M("c14-roles-no-update", DB, "            except sa.exc.IntegrityError:\n                await conn.execute(\n                    sa.update(self.AuthTable)\n                    .where(self.AuthTable.c.pubkey == pubkey)\n                    .values(roles=roles)\n                )", "            except sa.exc.IntegrityError:\n                pass", "C14.roles"),
     M("c14-kv-drop-can-do", KV,
       "        if not await self.authenticator.can_do(auth_token, Action.save.value, event):\n            raise AuthenticationError(\"restricted: permission denied\")\n",
       "", "C14.save"),
